@@ -53,7 +53,9 @@ CHECK_DEADLOCK FALSE
                      + (["--shared-reward", str(96 if quick else 256)] if k == 0 else [])
                      + (["--cast"] if k == 1 else [])
                      + (["--destroyed-funded", str(48 if quick else 160)] if k == 2 else [])
-                     + (["--scratch-memory", str(24 if quick else 96)] if k == 3 else []))
+                     + (["--scratch-memory", str(24 if quick else 96)] if k == 3 else [])
+                     + (["--stake-reward", str(32 if quick else 120)] if k == 4 else [])
+                     + (["--executed-store", str(16 if quick else 64)] if k == 5 else []))
     outs = ctx.run_parallel(argvs)
     nruns = sum(int(o.split("runs=")[1].split()[0]) for o in outs)
     total, classes, samples = 0, collections.Counter(), []
@@ -71,7 +73,8 @@ CHECK_DEADLOCK FALSE
                     s["transferOk"] = e["transferOk"][:4]
                     samples.append(s)
     if classes["transfer"] == 0 or classes["mixed"] == 0 or classes["shared-reward-account"] == 0 or classes["cast-cut-off-then-verify"] == 0 \
-            or classes["destroyed-then-funded"] == 0 or classes["uninitialised-memory-reader"] == 0:
+            or classes["destroyed-then-funded"] == 0 or classes["uninitialised-memory-reader"] == 0 \
+            or classes["stake-change-with-reward"] == 0 or classes["executed-store-history"] == 0:
         raise Inconclusive("vacuity: classes %s" % dict(classes))
     coverage = {
         "states": ref["distinct"] + asc["distinct"] + gen["distinct"],
